@@ -35,7 +35,7 @@ ASSUMPTIONS = [
     'metadata for the dataframe/export checks is non-jagged',
 ]
 ANCHORS = ['Table.sum', 'Table.min', 'Table.max', 'Table.nonzero_counts', 'Table.reduce', 'Table.get_table_density', 'compute_counts_per_sample_stats', '_summarize_table', 'Table.to_dataframe', 'Table.metadata_to_dataframe', '_export_metadata']
-REQUIRED = ['stats_with_stored_zero', 'stats_with_non_finite_count', 'metadata_given_as_tuples', 'reduce_callable_kinds_checked', 'sum_checked', 'minmax_checked', 'minmax_negative_only_vectors',
+REQUIRED = ['scale_head_cli', 'export_metadata_both_axes_at_once', 'stats_with_stored_zero', 'stats_with_non_finite_count', 'metadata_given_as_tuples', 'reduce_callable_kinds_checked', 'sum_checked', 'minmax_checked', 'minmax_negative_only_vectors',
             'nonzero_counts_checked', 'trailing_empty_vector_cases',
             'reduce_checked', 'stats_checked', 'summarize_default',
             'summarize_qualitative', 'summarize_observations',
@@ -493,6 +493,37 @@ def run_case(ctx, index):
                 fail('head-cli', 'head -n %d -m %d printed %r' % (hn, hm,
                                                                   text))
             ctx.count('head_cli')
+            if r.random() < .5:
+                # both exports in one invocation, whichever axes carry
+                # metadata: each axis that has some gets its file
+                outs = {'sample': outp + '.s', 'observation': outp + '.o'}
+                for p_ in outs.values():
+                    if os.path.exists(p_):
+                        os.remove(p_)
+                rr = _cli(['export-metadata', '-i', inp, '-m', outs['sample'],
+                           '--observation-metadata-fp', outs['observation']])
+                try:
+                    if rr.exit_code != 0:
+                        fail('export-metadata-failed', '%r %r' % (
+                            rr.output[-300:], rr.exception))
+                    for axis in ('sample', 'observation'):
+                        if spec.md(axis) is None:
+                            continue
+                        if not os.path.exists(outs[axis]):
+                            fail('export-metadata-missing-file', 'no %s '
+                                 'metadata file was written (both exports '
+                                 'asked for; output %r)' % (axis,
+                                                            rr.output[-200:]))
+                        with open(outs[axis], encoding='utf-8',
+                                  newline='') as f:
+                            rows = list(csv.reader(f, delimiter='\t'))
+                        check_export(rows, spec, axis, fail)
+                        ctx.count('export_metadata_cli')
+                        ctx.count('export_metadata_both_axes_at_once')
+                finally:
+                    for p_ in outs.values():
+                        if os.path.exists(p_):
+                            os.remove(p_)
             for axis, flag in (('sample', '-m'),
                                ('observation', '--observation-metadata-fp')):
                 if spec.md(axis) is None:
@@ -601,3 +632,63 @@ def check_export(rows, spec, axis, fail):
             if not ok:
                 fail('export-metadata-value', 'row %d col %d: %r vs %r' %
                      (k, c, got, v))
+
+
+def stress(ctx):
+    """Scale: `biom head` and `table-ids` on files with more than 100 000
+    stored values, where some of the leading samples are empty within the
+    leading observations (and the other way round)."""
+    biom = ctx.biom
+    r = ctx.rng('stress')
+    for n, m in ((420, 300), (300, 420)):
+        rng = np.random.default_rng(r.randrange(2 ** 32))
+        D = rng.integers(1, 6, size=(n, m)).astype(float)
+        D[:8, 1] = 0            # sample 1 is empty within the first rows
+        D[:8, 3] = 0
+        D[2, :9] = 0            # observation 2 is empty within the first cols
+        obs = ['Obs%d' % i for i in range(n)]
+        samp = ['Samp%d' % i for i in range(m)]
+        t = biom.Table(D, obs, samp)
+        for fmt in ('hdf5', 'json'):
+            inp = ctx.path('c19big.%s' % fmt)
+            outp = ctx.path('c19big.out')
+            try:
+                if fmt == 'hdf5':
+                    biom.save_table(t, inp)
+                else:
+                    with open(inp, 'w', encoding='utf-8') as f:
+                        f.write(t.to_json('vm'))
+                for hn, hm in ((5, 5), (3, 7), (8, 2)):
+                    if os.path.exists(outp):
+                        os.remove(outp)
+                    rr = _cli(['head', '-i', inp, '-n', str(hn), '-m',
+                               str(hm), '-o', outp])
+                    desc = {'scale': 'head -n %d -m %d on a %dx%d %s file' %
+                            (hn, hm, n, m, fmt)}
+                    if rr.exit_code != 0:
+                        raise Violation('C19/head-cli', 'exit %s %r; %r' % (
+                            rr.exit_code, rr.output[-200:], desc))
+                    with open(outp, encoding='utf-8') as f:
+                        text = f.read()
+                    from vm import tsvspec
+                    o_, s_, D_, _, _ = tsvspec.decode(text)
+                    if o_ != obs[:hn] or s_ != samp[:hm] or \
+                            not snap.bits_equal(D_, D[:hn, :hm]):
+                        raise Violation('C19/head-cli', 'printed %r / %r, '
+                                        'the leading block is %r / %r; %r' %
+                                        (o_, s_, obs[:hn], samp[:hm], desc))
+                    ctx.count('scale_head_cli')
+                    ctx.case(desc, True)
+                for flag, ids in (([], samp), (['--observations'], obs)):
+                    rr = _cli(['table-ids', '-i', inp] + flag)
+                    got = rr.output.split('\n')
+                    if got and got[-1] == '':
+                        got.pop()
+                    if rr.exit_code != 0 or got != ids:
+                        raise Violation('C19/table-ids', 'scale: %d ids '
+                                        'printed for %d' % (len(got),
+                                                            len(ids)))
+            finally:
+                for p_ in (inp, outp):
+                    if os.path.exists(p_):
+                        os.remove(p_)
